@@ -229,14 +229,22 @@ Definition op_AddGeometryTable (w : cworld) (g : tabledesc) : cworld * goerr :=
 (** a byte string as the driver hands it over: the identity of its content (the model's text id) and the geometry
     gpkg.DecodeGeometry finds in it, if it is a GeoPackage blob *)
 Inductive bytesv := Bytes (id : N) (dec : option geom).
-(** string(b) *)
+(** string(b): the text with that content *)
 Definition bytes_text (b : bytesv) : N := match b with Bytes id _ => id end.
+(** b itself, kept as a []byte attribute value (fix 4dc32dc, F19): the blob with that content *)
+Definition bytes_blob (b : bytesv) : N := match b with Bytes id _ => id end.
 (** x := make([]byte, len(b)); copy(x, b): a copy with the same content *)
 Definition bytes_copy (b : bytesv) : bytesv := b.
 
-(** what rows.Scan stores into an *interface{}: []uint8, int64, float64, time.Time, string, nil -- or something
-    else (go-sqlite3 hands over a bool for a column declared BOOLEAN) *)
-Inductive drv := DBytes (b : bytesv) | DInt (z : Z) | DFloat (q : Z) | DTime (ns : Z) | DString (s : N) | DNil | DOther (k : N).
+(** what rows.Scan stores into an *interface{}: []uint8 (a BLOB cell), int64, float64, time.Time (a cell of a column declared
+    DATE / DATETIME / TIMESTAMP), string (a TEXT cell), bool (an INTEGER cell z of a column declared BOOLEAN: go-sqlite3 hands
+    over [z > 0]), nil -- or something else (no such driver value is known; [DOther] keeps the default branch of the type
+    switch meaningful) *)
+Inductive drv := DBytes (b : bytesv) | DInt (z : Z) | DFloat (q : Z) | DTime (ns : Z) | DString (s : N) | DBool (b : bool) | DNil | DOther (k : N).
+
+(** a Go bool as an attribute value: go-sqlite3 binds a bool argument of stmt.Exec as the integer 1 / 0 (sqlite3_bind_int),
+    and nothing between ReadFeatures and stmt.Exec looks at the value: it is represented by that integer *)
+Definition value_of_bool (b : bool) : value := VInt (Z.b2z b).
 
 (** x.([]byte) *)
 Definition assert_bytes (v : drv) : wres bytesv :=
@@ -329,9 +337,13 @@ Fixpoint index_of (n : string) (l : list string) : option nat :=
 
 Definition ti_name (r : tirow) : string := let '(_, n, _, _, _, _) := r in n.
 
-(** source.handle.Query(source.Table.selectSQL()) = SELECT c1,c2,.. FROM "name": "no such table", a syntax error
-    without columns, "no such column"; otherwise every row of the table, projected on the selected columns in the
-    selected order, and these names as result columns *)
+(** source.handle.Query(source.Table.selectSQL()) = SELECT "c1","c2",.. FROM "name": "no such table", a syntax error
+    without columns; every row of the table, projected on the selected columns in the selected order, and these names
+    (as the table declares them) as result columns.  A selected name that is NO column of the table: with bare names
+    SQLite says "no such column", which is what this operation answers; a DOUBLE-QUOTED name that is no column is read by
+    SQLite as a string literal (its legacy rule), so since fix a631213 the real answer is that text in every row -- the
+    tool never asks for it (GetTableInfo takes the names from PRAGMA table_info of the same table; clause 8 of
+    [C12_source_tie_schema] has it as a hypothesis), and nothing is proved from this branch. *)
 Definition op_QuerySelect (sd : srcdb) (q : qsql) : cursor (list drv) * goerr :=
   match q with
   | SelectSQL t =>
@@ -443,19 +455,26 @@ Definition src_dflts_ok (sd : srcdb) : Prop :=
 
 (** ** A file the model describes ([db]), opened as a SOURCE *)
 Definition drv_of_value (v : value) : drv :=
-  match v with VNull => DNil | VInt z => DInt z | VReal q => DFloat q | VText s => DString s | VTime ns => DTime ns end.
+  match v with
+  | VNull => DNil | VInt z => DInt z | VReal q => DFloat q | VText s => DString s | VTime ns => DTime ns
+  | VBlob b => DBytes (Bytes b None)   (* an attribute blob: whether it happens to decode as a geometry plays no role *)
+  end.
 (** the geometry cell is a blob that decodes to the geometry (its content identity plays no role) *)
 Definition drv_of_cell (c : cell) : drv :=
   match c with CVal v => drv_of_value v | CGeom g => DBytes (Bytes 0 (Some g)) end.
 
-(** a driver value that stands for a cell: text comes as string or as []uint8, a geometry as a blob that decodes to it *)
+(** a driver value that stands for a cell: a text comes as string, a blob as []uint8 with that content (whatever it would
+    decode to), an integer 1 / 0 of a column declared BOOLEAN as the bool true / false, a geometry as a blob that decodes
+    to it.  (An integer cell z other than 0 / 1 in a BOOLEAN column is handed over as [z > 0] and written as 1 / 0: the
+    driver's normalisation, outside this relation.) *)
 Inductive cell_drv : cell -> drv -> Prop :=
 | cd_null : cell_drv (CVal VNull) DNil
 | cd_int : forall z, cell_drv (CVal (VInt z)) (DInt z)
 | cd_real : forall q, cell_drv (CVal (VReal q)) (DFloat q)
 | cd_time : forall ns, cell_drv (CVal (VTime ns)) (DTime ns)
 | cd_string : forall s, cell_drv (CVal (VText s)) (DString s)
-| cd_bytes : forall s dec, cell_drv (CVal (VText s)) (DBytes (Bytes s dec))
+| cd_bytes : forall s dec, cell_drv (CVal (VBlob s)) (DBytes (Bytes s dec))
+| cd_bool : forall b, cell_drv (CVal (VInt (Z.b2z b))) (DBool b)
 | cd_geom : forall g id, cell_drv (CGeom g) (DBytes (Bytes id (Some g))).
 
 Fixpoint tirows_of (i : Z) (cols : list column) : list tirow :=
